@@ -1,7 +1,8 @@
 import Driver.Hist
 import Driver.File
+import Driver.Proto
 import Std.Data.HashMap
-open Driver
+open Driver Jamm
 
 abbrev Counts := Std.HashMap String Nat
 
@@ -14,61 +15,123 @@ def outcomeClass (got : String) : String :=
 
 def bump (c : Counts) (k : String) : Counts := c.insert k (c.getD k 0 + 1)
 
-/-- verify one transcript file of the history stream; prints one RESULT line per history -/
-partial def histLoop (h : IO.FS.Stream) (st : St) (cur : String) (lineNo : Nat) (nOps : Nat)
-    (failed : Bool) (nHist nBad : Nat) (cnt : Counts) : IO (Nat × Nat × Counts) := do
-  let line ← h.getLine
-  if line.isEmpty then
-    if cur != "" && !failed then IO.println s!"RESULT {cur} OK ops={nOps}"
-    return (nHist, nBad, cnt)
-  let line := line.trimAscii.toString
-  if line.isEmpty then histLoop h st cur (lineNo + 1) nOps failed nHist nBad cnt
-  else
+structure Loop where
+  st : St := {}
+  cur : String := ""
+  lineNo : Nat := 1
+  nOps : Nat := 0
+  failed : Bool := false
+  nHist : Nat := 0
+  nBad : Nat := 0
+  cnt : Counts := {}
+  proto : Option ProtoSt := none
+  lastFile : Option FileSum := none
+  commitsSinceFile : Nat := 0
+  protoChecked : Nat := 0
+  protoOff : Bool := false
+
+def Loop.fail (l : Loop) (kind msg : String) : IO Loop := do
+  IO.println s!"RESULT {l.cur} {kind} line={l.lineNo} {msg}"
+  return { l with failed := true, nBad := l.nBad + 1 }
+
+def Loop.endHist (l : Loop) : IO Unit := do
+  if l.cur != "" then
+    match l.proto with
+    | some p => IO.println s!"PROTO {l.cur} commits-checked={p.checked} maxNonFree={p.maxNonFree} maxGrowth={p.maxReq} numPages={p.sys.numPages} invariant=ok"
+    | none => pure ()
+    if !l.failed then IO.println s!"RESULT {l.cur} OK ops={l.nOps}"
+
+/-- one transcript line -/
+def stepLine (l : Loop) (line : String) : IO Loop := do
   let (lhs, got) := match line.splitOn " => " with
     | [a, b] => (a, b)
     | [a] => (a, "")
     | a :: rest => (a, " => ".intercalate rest)
     | [] => ("", "")
   let f := lhs.splitOn " "
-  if f.head? == some "hist" then
-    if cur != "" && !failed then IO.println s!"RESULT {cur} OK ops={nOps}"
-    histLoop h {} (f.getD 1 "?") (lineNo + 1) 0 false (nHist + 1) nBad cnt
-  else if failed then histLoop h st cur (lineNo + 1) nOps failed nHist nBad cnt
+  let op := f.headD ""
+  if op == "hist" then
+    l.endHist
+    return { l with st := {}, cur := f.getD 1 "?", nOps := 0, failed := false, nHist := l.nHist + 1,
+                    proto := none, lastFile := none, commitsSinceFile := 0, protoOff := false }
+  if l.failed then return l
+  let r := stepOp l.st f
+  let l := { l with cnt := bump l.cnt (op ++ "/" ++ outcomeClass got) }
+  -- outcome against the specification
+  if !(r.allowed.isEmpty || r.allowed.contains got) then
+    return ← l.fail "SPECDIFF" s!"op=[{lhs}] expected=[{" | ".intercalate r.allowed}] got=[{got}]"
+  let l := { l with st := r.st, nOps := l.nOps + 1 }
+  match op with
+  | "fhash" => return { l with st := { l.st with lastHash := some got } }
+  | "commit" =>
+    if got == "ok" then return { l with commitsSinceFile := l.commitsSinceFile + 1 } else return l
+  | "open" | "reopen" | "close" => return { l with proto := none, lastFile := none, commitsSinceFile := 0 }
+  | "begin" =>
+    if f.getD 2 "" == "r" && got == "ok" then
+      match l.proto with
+      | some p => return { l with proto := some { p with sys := p.sys.step .beginR, readerTx := p.readerTx ++ [(f.getD 1 "0").toNat!] } }
+      | none => return l
+    else return l
+  | "drop" =>
+    match l.proto with
+    | some p =>
+      let t := (f.getD 1 "0").toNat!
+      match p.readerTx.findIdx? (· == t) with
+      | some i => return { l with proto := some { p with sys := p.sys.step (.endR i), readerTx := p.readerTx.eraseIdx i } }
+      | none => return l
+    | none => return l
+  | "file" =>
+    -- `file => <path>`: decode the real bytes, check well-formedness and accounting, compare contents
+    let rep ← checkPath got l.st.pagesize
+    if !keepSnaps then (try IO.FS.removeFile got catch _ => pure ())
+    let want := dumpBucket l.st.committed [] true
+    if !rep.ok then
+      return ← l.fail "FILEBAD" s!"op=[{lhs}] detail=[{rep.msg}] numPages={rep.numPages} txId={rep.txId}"
+    if rep.dump != want then
+      return ← l.fail "FILEDIFF" s!"op=[{lhs}] expected=[{want}] got=[{rep.dump}]"
+    IO.println s!"FILE {l.cur} line={l.lineNo} numPages={rep.numPages} txId={rep.txId} free={rep.free} reach={rep.reach} size={rep.fileSize}"
+    return { l with cnt := bump l.cnt "file/ok",
+                    lastFile := some { reach := rep.reachPages, persisted := rep.freePages, numPages := rep.numPages, txId := rep.txId } }
+  | "flstate" =>
+    match l.lastFile with
+    | none => return l
+    | some fs =>
+      let impl := parseFlState got
+      match l.proto with
+      | none =>
+        if l.protoOff then return l
+        else return { l with proto := some (protoInit fs impl), commitsSinceFile := 0 }
+      | some p =>
+        if l.commitsSinceFile == 0 then return l
+        else if l.commitsSinceFile == 1 then
+          match protoCommit p fs impl with
+          | .ok p' => return { l with proto := some p', commitsSinceFile := 0 }
+          | .error e => return ← l.fail "PROTODIFF" s!"op=[{lhs}] detail=[{e}]"
+        else
+          -- more than one commit since the last observation: the writer's page sets cannot be
+          -- attributed; stop tracking this history (never guess)
+          return { l with proto := none, protoOff := true, commitsSinceFile := 0 }
+  | _ => return l
+
+partial def histLoop (h : IO.FS.Stream) (l : Loop) : IO Loop := do
+  let line ← h.getLine
+  if line.isEmpty then
+    l.endHist
+    return l
+  let line := line.trimAscii.toString
+  if line.isEmpty then histLoop h { l with lineNo := l.lineNo + 1 }
   else
-    let r := stepOp st f
-    let cnt := bump cnt (f.headD "?" ++ "/" ++ outcomeClass got)
-    if f.head? == some "fhash" && (r.allowed.isEmpty || r.allowed.contains got) then
-      histLoop h { r.st with lastHash := some got } cur (lineNo + 1) (nOps + 1) false nHist nBad cnt
-    else if f.head? == some "file" then
-      -- `file => <path>`: decode the real bytes, check well-formedness and accounting, compare contents
-      let pagesize := st.pagesize
-      let rep ← checkPath got pagesize
-      if !keepSnaps then (try IO.FS.removeFile got catch _ => pure ())
-      let want := dumpBucket st.committed [] true
-      if !rep.ok then
-        IO.println s!"RESULT {cur} FILEBAD line={lineNo} op=[{lhs}] detail=[{rep.msg}] numPages={rep.numPages} txId={rep.txId}"
-        histLoop h r.st cur (lineNo + 1) nOps true nHist (nBad + 1) cnt
-      else if rep.dump != want then
-        IO.println s!"RESULT {cur} FILEDIFF line={lineNo} op=[{lhs}] expected=[{want}] got=[{rep.dump}]"
-        histLoop h r.st cur (lineNo + 1) nOps true nHist (nBad + 1) cnt
-      else
-        IO.println s!"FILE {cur} line={lineNo} numPages={rep.numPages} txId={rep.txId} free={rep.free} reach={rep.reach} size={rep.fileSize}"
-        histLoop h r.st cur (lineNo + 1) (nOps + 1) false nHist nBad (bump cnt "file/ok")
-    else
-    if r.allowed.isEmpty || r.allowed.contains got then
-      histLoop h r.st cur (lineNo + 1) (nOps + 1) false nHist nBad cnt
-    else
-      IO.println s!"RESULT {cur} SPECDIFF line={lineNo} op=[{lhs}] expected=[{" | ".intercalate r.allowed}] got=[{got}]"
-      histLoop h r.st cur (lineNo + 1) nOps true nHist (nBad + 1) cnt
+    let l' ← stepLine l line
+    histLoop h { l' with lineNo := l'.lineNo + 1 }
 
 def main (args : List String) : IO UInt32 := do
   match args with
   | ["hist", path] =>
     let h ← IO.FS.Handle.mk path .read
-    let (n, bad, cnt) ← histLoop (IO.FS.Stream.ofHandle h) {} "" 1 0 false 0 0 {}
-    for (k, v) in cnt.toList do
+    let l ← histLoop (IO.FS.Stream.ofHandle h) {}
+    for (k, v) in l.cnt.toList do
       IO.println s!"STAT {k}={v}"
-    IO.println s!"SUMMARY histories={n} specdiff={bad}"
+    IO.println s!"SUMMARY histories={l.nHist} bad={l.nBad}"
     return 0
   | _ =>
     IO.eprintln "usage: jmodel hist <trace>"
